@@ -120,6 +120,7 @@ func init() {
 		}
 		c.Assume("environment = scripted batch server + scripted fake adapter; schedules of the real goroutines are sampled by seeded perturbation at every hook, only the model's interleavings are exhausted")
 		c.Assume("hang = no hook event for 5 s while the driver is blocked in Add/Wait (all scripted waits are <= 1 s); panic = child process exit status 2 with a Go panic on stderr")
+		workersPhase(c)
 		runTQ(c, c06Owner, g)
 	}
 	registry["C15"] = func(c *core.Ctx, replay string) {
